@@ -36,6 +36,14 @@ CHECKS = {
                 technique="inductive invariant: state-update analysis of set_orientation by abstract interpretation (sent value / stored fields as polynomials), reader and writer inventories over all Display methods",
                 text="set_orientation must send SetAddressMode(with_orientation(old, o)), store that value as the cached address mode and store o as options.orientation on success (not on error); orientation() and size() are functions of the stored orientation; every other method leaves options and the cached address mode unchanged. With C14 this makes the state after any sequence equal to that of a fresh build with the last orientation, colour/refresh bits preserved.",
                 note="Trusted: rustc MIR, interpreter, C14, C18; subsequent drawing depends on the Display state only (C01/C02/C08). Found and fixed: options.orientation was never stored (commit 8b20831)."),
+    "C11": dict(level="other", design="5/C11",
+                technique="abstract interpretation of all 14 Model::init bodies (helpers inlined) to event words and symbolic parameter values; gate analysis on the constant DI::KIND; frozen baseline table for 'stays supported'",
+                text="Per built-in model, for every interface kind and all option values at once: unsupported kinds return UnsupportedInterface with an empty event word and the supported set contains the frozen baseline; every success path has exactly one sleep-out, no sleep-in, display-on last, address mode / pixel format / inversion sent, no pixel-memory command, constant opcodes and >=120 ms after sleep-out; the address-mode byte sent and returned is the MIPI encoding of the options (polynomial identity), the inversion opcode follows the option, COLMOD's interface bits match the colour type; Builder::init caches exactly the returned value.",
+                note="Level 'other': the vendor-specific raw register sequences are not judged, external Model impls are their own obligation. Trusted: rustc MIR, interpreter, C14, C18, opcode table, spec/interface_support.json baseline."),
+    "C12": dict(level="fault_enumeration", design="5/C12",
+                technique="error-flow analysis over MIR: every fallible hardware/interface event forks into Ok/Err edges; path rules (no event after an Err edge, error value returned in the variant of its source, result never ignored, no panic) checked on all paths of all functions with fallible operations",
+                text="Enumerates, on the control-flow graph rather than over runs, every path on which the k-th pin/SPI/bus/interface operation fails - for all k, both transports, every model init and every Display method - and checks that the call returns exactly that error wrapped in the variant naming its source (dc/spi, bus/dc/wr, rst/di), performs no further hardware operation, cannot panic, and that no path drops the result of a fallible operation; the sleeping flag and options are unchanged on error paths.",
+                note="Trusted: rustc MIR, interpreter. 'Draws correctly after the fault cleared' is reduced to: state read by later calls is unchanged (here) plus the bus-cache rule of C07 and the state-only proofs of C01/C08. What a real controller does with a half-sent command is out of scope."),
 }
 
 NOT_APPLICABLE = {
